@@ -49,6 +49,121 @@ pub fn state_string(rp: &RunningProgram) -> String {
     s
 }
 
+
+/// minimal reader for the S-expressions of `verif_hooks::statements_sexp` (atoms never contain blanks or parentheses)
+enum Sx { A(String), L(Vec<Sx>) }
+
+fn sx_parse(text: &str) -> Option<Sx> {
+    let mut stack: Vec<Vec<Sx>> = vec![Vec::new()];
+    let mut cur = String::new();
+    fn flush(cur: &mut String, stack: &mut Vec<Vec<Sx>>) {
+        if !cur.is_empty() { let a = std::mem::take(cur); stack.last_mut().unwrap().push(Sx::A(a)); }
+    }
+    for c in text.chars() {
+        match c {
+            '(' => { flush(&mut cur, &mut stack); stack.push(Vec::new()); }
+            ')' => {
+                flush(&mut cur, &mut stack);
+                let top = stack.pop()?;
+                stack.last_mut()?.push(Sx::L(top));
+            }
+            ' ' | '\t' | '\n' | '\r' => flush(&mut cur, &mut stack),
+            _ => cur.push(c),
+        }
+    }
+    flush(&mut cur, &mut stack);
+    if stack.len() != 1 { return None; }
+    let mut top = stack.pop()?;
+    if top.len() != 1 { return None; }
+    top.pop()
+}
+
+/// `(sspans S..)`: every statement-level span the real parser stored in the AST (`verif_hooks::statements_sexp` prints
+/// them all), statement by statement in source order, as offsets relative to the start of the USER text (the offset in
+/// preamble + text minus `prelen`; negative for the statements of the preamble itself):
+///   `(wire (s e)..)`                      WireDecl.span of every declaration
+///   `(const (ns ne vs ve)..)`             ConstDecl.name_span, then the span of the value
+///   `(assign (s e ((ns ne)..) vs ve)..)`  Assignment.span, the span of every target name, the span of the value
+///   `(bank s e ns ne (rs re vs ve)..)`    RegisterBankDecl.span, .name_span; per register RegisterDecl.span and the
+///                                         span of the default value
+pub fn sspans_field(stmts_sexp: &str, prelen: usize) -> String {
+    fn rel(x: &Sx, prelen: usize) -> Option<i64> {
+        match x { Sx::A(a) => a.parse::<i64>().ok().map(|v| v - prelen as i64), _ => None }
+    }
+    fn pair(out: &mut String, a: &Sx, b: &Sx, prelen: usize) -> Option<()> {
+        write!(out, "{} {}", rel(a, prelen)?, rel(b, prelen)?).ok()
+    }
+    // the span of an expression `(tag s e ..)`
+    fn espan(out: &mut String, e: &Sx, prelen: usize) -> Option<()> {
+        match e { Sx::L(items) if items.len() >= 3 => pair(out, &items[1], &items[2], prelen), _ => None }
+    }
+    fn go(stmts_sexp: &str, prelen: usize) -> Option<String> {
+        let top = match sx_parse(stmts_sexp)? { Sx::L(l) => l, _ => return None };
+        let mut out = String::from("(sspans");
+        for st in &top {
+            let items = match st { Sx::L(l) => l, _ => return None };
+            let tag = match items.first()? { Sx::A(a) => a.as_str(), _ => return None };
+            match tag {
+                "wire" => {
+                    out.push_str(" (wire");
+                    for d in &items[1..] {
+                        match d { Sx::L(f) if f.len() == 4 => { out.push_str(" ("); pair(&mut out, &f[2], &f[3], prelen)?; out.push(')'); } _ => return None }
+                    }
+                    out.push(')');
+                }
+                "const" => {
+                    out.push_str(" (const");
+                    for d in &items[1..] {
+                        match d {
+                            Sx::L(f) if f.len() == 4 => { out.push_str(" ("); pair(&mut out, &f[1], &f[2], prelen)?; out.push(' '); espan(&mut out, &f[3], prelen)?; out.push(')'); }
+                            _ => return None,
+                        }
+                    }
+                    out.push(')');
+                }
+                "assign" => {
+                    out.push_str(" (assign");
+                    for a in &items[1..] {
+                        match a {
+                            Sx::L(f) if f.len() == 4 => {
+                                out.push_str(" ("); pair(&mut out, &f[0], &f[1], prelen)?; out.push_str(" (");
+                                let names = match &f[2] { Sx::L(l) => l, _ => return None };
+                                for (i, n) in names.iter().enumerate() {
+                                    match n { Sx::L(g) if g.len() == 3 => { if i > 0 { out.push(' '); } out.push('('); pair(&mut out, &g[1], &g[2], prelen)?; out.push(')'); } _ => return None }
+                                }
+                                out.push_str(") "); espan(&mut out, &f[3], prelen)?; out.push(')');
+                            }
+                            _ => return None,
+                        }
+                    }
+                    out.push(')');
+                }
+                "bank" => {
+                    if items.len() < 6 { return None; }
+                    out.push_str(" (bank "); pair(&mut out, &items[2], &items[3], prelen)?; out.push(' '); pair(&mut out, &items[4], &items[5], prelen)?;
+                    for r in &items[6..] {
+                        match r {
+                            Sx::L(f) if f.len() == 5 => { out.push_str(" ("); pair(&mut out, &f[2], &f[3], prelen)?; out.push(' '); espan(&mut out, &f[4], prelen)?; out.push(')'); }
+                            _ => return None,
+                        }
+                    }
+                    out.push(')');
+                }
+                "error" => out.push_str(" (error)"),
+                _ => return None,
+            }
+        }
+        out.push(')');
+        Some(out)
+    }
+    go(stmts_sexp, prelen).unwrap_or_else(|| String::from("(sspans UNREADABLE)"))
+}
+
+/// the two fields every request about a parsed text carries: the statement-level spans and the statements
+pub fn stmts_fields(stmts_sexp: &str) -> String {
+    format!("{} (stmts {})", sspans_field(stmts_sexp, hk::y86_preamble().len()), stmts_sexp)
+}
+
 pub struct ProgOutcome {
     pub request: Option<String>,     // None when the text does not parse (no AST to hand to the model)
     pub result: String,
@@ -156,7 +271,7 @@ pub fn run_program_rep(user_text: &str, cycles: u32, mem: &[(u64, u8)], extra_fi
     for (a, b) in mem { write!(memf, " ({} {})", a, b).unwrap(); }
     memf.push(')');
     match &sexp {
-        Some(s) => crate::watch::note(format!("(prog {} {} (cycles {}) {} {} (stmts {}))", flags_sexp(), cls_sexp(user_text), cycles, memf, extra_fields, s)),
+        Some(s) => crate::watch::note(format!("(prog {} {} (cycles {}) {} {} {})", flags_sexp(), cls_sexp(user_text), cycles, memf, extra_fields, stmts_fields(s))),
         None => crate::watch::note_text("prog", user_text),
     }
     let (mut result, accepted, acts) = run_once(&contents, cycles, mem);
@@ -171,8 +286,8 @@ pub fn run_program_rep(user_text: &str, cycles: u32, mem: &[(u64, u8)], extra_fi
         if !schedules.contains(&a2) { schedules.push(a2); }
     }
     let request = sexp.map(|s| {
-        format!("(prog {} {} (cycles {}) {} {} (nsched {}) {} (stmts {}))", flags_sexp(), cls_sexp(user_text), cycles, memf,
-                extra_fields, schedules.len(), schedules.join(" "), s)
+        format!("(prog {} {} (cycles {}) {} {} (nsched {}) {} {})", flags_sexp(), cls_sexp(user_text), cycles, memf,
+                extra_fields, schedules.len(), schedules.join(" "), stmts_fields(&s))
     });
     ProgOutcome { request, result, accepted }
 }
@@ -190,7 +305,7 @@ pub fn run_to_end(user_text: &str, timeout: u32, mem: &[(u64, u8)], extra_fields
         let mut memf = String::from("(mem");
         for (a, b) in mem { write!(memf, " ({} {})", a, b).unwrap(); }
         memf.push(')');
-        format!("(run {} {} (timeout {}) {} {} (stmts {}))", flags_sexp(), cls_sexp(user_text), timeout, memf, extra_fields, s)
+        format!("(run {} {} (timeout {}) {} {} {})", flags_sexp(), cls_sexp(user_text), timeout, memf, extra_fields, stmts_fields(&s))
     });
     match &request {
         Some(r) => crate::watch::note(r.clone()),
